@@ -12,10 +12,10 @@ import sys
 
 INF = 255
 NSLOT = 4
-F1, G1, F2, V1, R1 = range(5)
+F1, G1, F2, V1, R1, CR1 = range(6)
 MK = dict(ANY=0, EQ=1, LT=2, VAL=3, NE=4, GE=5)
 TF = dict(RT=0, DEFAULT=1, N=2, LH=3, ATLEAST=4, ATMOST=5, ALLOW=6, FORBID=7)
-ACT = dict(RET=0, THROW_INT=1, THROW_STD=2, NONE=3, RETREF=4)
+ACT = dict(RET=0, THROW_INT=1, THROW_STD=2, NONE=3, RETREF=4, RETCAP=5)
 MOCK = dict(M=0, MV=1, W=2)
 (OP_CREATE, OP_RELEASE, OP_CALL, OP_DESTROY_MOCK, OP_MOVE_MOCK, OP_DESTROY_SEQ, OP_MOVE_SEQ, OP_NEW_WATCHED, OP_DELETE_WATCHED,
  OP_COPY_WATCHED, OP_MOVECONS_WATCHED, OP_ASSIGN_WATCHED, OP_MOVEASSIGN_WATCHED, OP_MONITOR, OP_PUSH_TRACER, OP_POP_TRACER,
@@ -25,7 +25,7 @@ F_KIND, F_HANDLER, F_REPCOUNT, F_REPCULPRIT, F_REPDETAIL, F_OKREP, F_TRACE, F_CL
 F_REPORTS = F_REPCOUNT | F_REPCULPRIT | F_REPDETAIL
 F_ALL = (1 << 11) - 1
 
-FN_NAME = {F1: 'f', F2: 'f', G1: 'g', V1: 'v', R1: 'r'}
+FN_NAME = {F1: 'f', F2: 'f', G1: 'g', V1: 'v', R1: 'r', CR1: 'cr'}
 
 
 class Gen:
@@ -36,7 +36,7 @@ class Gen:
 
     def shape(self, mock='M', fn=F1, mk1='EQ', mk2='ANY', nwith=0, nse=0, seqar=0, tform='RT', tl=0, th=0, act=None, clauses=None):
         if act is None:
-            act = 'NONE' if (fn == V1 or tform == 'FORBID' or (tform in ('N', 'ATMOST') and tl == 0) or mock == 'W') else ('RETREF' if fn == R1 else 'RET')
+            act = 'NONE' if (fn == V1 or tform == 'FORBID' or (tform in ('N', 'ATMOST') and tl == 0) or mock == 'W') else ('RETREF' if fn == R1 else ('RETCAP' if fn == CR1 else 'RET'))
         if clauses is None:
             clauses = 'W' * nwith + ('Q' if seqar else '') + ('T' if tform not in ('DEFAULT', 'ALLOW', 'FORBID') else '') + 'S' * nse + ('A' if act != 'NONE' else '')
         key = (MOCK[mock], fn, MK[mk1], MK[mk2], nwith, nse, seqar, TF[tform], tl, th, ACT[act], clauses)
@@ -109,9 +109,11 @@ class Gen:
                     chain += '.TIMES(AT_MOST(%d))' % tl
             elif c == 'A':
                 chain += {ACT['RET']: '.RETURN(cur()->hr(%d))' % K, ACT['RETREF']: '.LR_RETURN(cur()->hrr(%d))' % K,
-                          ACT['THROW_INT']: '.THROW(cur()->ht(%d))' % K, ACT['THROW_STD']: '.THROW(cur()->hte(%d))' % K}[act]
+                          ACT['THROW_INT']: '.THROW(cur()->ht(%d))' % K, ACT['THROW_STD']: '.THROW(cur()->hte(%d))' % K,
+                          ACT['RETCAP']: '.RETURN(v_s%d)' % K}[act]
         getter = 'pw->M_(op.obj)' if mock == MOCK['M'] else 'pw->MV_(op.obj)'
-        return 'auto& %s = %s; return %s;' % (var, getter, chain), text
+        pre = 'int v_s%d = %d; ' % (K, 700 + K) if act == ACT['RETCAP'] else ''
+        return '%sauto& %s = %s; return %s;' % (pre, var, getter, chain), text
 
     def write_sites(self, path):
         lines = ['// generated by gen/gen_hist.py - do not edit', '#include "world.hpp"', 'namespace hm {', 'namespace {']
@@ -445,14 +447,15 @@ def plans_C08(g, tier):
     shadow = g.create(1, g.shape(fn=F1, mk1='ANY', tform='ALLOW', nwith=1, nse=1), obj=0, wmode=(0, 0, 0))
     shadow_v = g.create(1, g.shape(fn=V1, mk1='ANY', tform='ALLOW', nwith=1, nse=1), obj=0, wmode=(0, 0, 0))
     shadow_r = g.create(1, g.shape(fn=R1, mk1='ANY', tform='ALLOW', nwith=1, nse=1), obj=0, wmode=(0, 0, 0))
+    shadow_cr = g.create(1, g.shape(fn=CR1, mk1='ANY', tform='ALLOW', nwith=1, nse=1), obj=0, wmode=(0, 0, 0))
     allow_g = g.create(2, g.shape(fn=G1, mk1='ANY', tform='ALLOW', nse=1), obj=0)
     for w in range(0, maxc + 1):
         for s_ in range(0, maxc + 1):
             if w + s_ > (4 if tier == 'quick' else 5):
                 continue
             for order in interleavings(w, s_):
-                for fn, act in ((F1, 'RET'), (V1, 'NONE'), (R1, 'RETREF'), (F1, 'THROW_INT'), (F1, 'THROW_STD')):
-                    if act in ('THROW_STD',) and (w + s_) > 2:
+                for fn, act in ((F1, 'RET'), (V1, 'NONE'), (R1, 'RETREF'), (CR1, 'RETCAP'), (F1, 'THROW_INT'), (F1, 'THROW_STD')):
+                    if act in ('THROW_STD', 'RETCAP') and (w + s_) > 2:
                         continue
                     clauses = order + 'T' + ('A' if act != 'NONE' else '')
                     sh = g.shape(fn=fn, mk1='ANY', nwith=w, nse=s_, tform='RT', act=act, clauses=clauses)
@@ -465,9 +468,9 @@ def plans_C08(g, tier):
                                     continue
                                 wm = tuple(wv) + (0,) * (3 - w)
                                 sm = tuple(sv) + (0,) * (3 - s_)
-                                sh_shadow = shadow if fn == F1 else (shadow_v if fn == V1 else shadow_r)
+                                sh_shadow = shadow if fn == F1 else (shadow_v if fn == V1 else (shadow_r if fn == R1 else shadow_cr))
                                 pre.append([allow_g, sh_shadow, g.create(0, sh, obj=0, lo=1, hi=2, wmode=wm, semode=sm, actmode=am)])
-    alpha = [g.call(0, F1, 1), g.call(0, F1, 2), g.call(0, V1, 1), g.call(0, V1, 2), g.call(0, R1, 1), g.call(0, R1, 2)]
+    alpha = [g.call(0, F1, 1), g.call(0, F1, 2), g.call(0, V1, 1), g.call(0, V1, 2), g.call(0, R1, 1), g.call(0, R1, 2), g.call(0, CR1, 1), g.call(0, CR1, 2)]
     return [dict(name='clauses', mask=M_C08, du=0, dm=3, alphabet=alpha, prefixes=pre)]
 
 
